@@ -12,6 +12,7 @@ import (
 	"fmt"
 	"os"
 	"path/filepath"
+	"strings"
 	"time"
 
 	"github.com/ProtonMail/go-crypto/openpgp"
@@ -77,6 +78,37 @@ func main() {
 		must(err)
 		write("rsa_b.pub", pem.EncodeToMemory(&pem.Block{Type: "PUBLIC KEY", Bytes: pub}))
 		fmt.Println("key rsa_b written to", dir)
+		return
+	}
+	if len(os.Args) > 2 && os.Args[2] == "only-h" {
+		// key H: another export of key G (same primary key, same passphrase)
+		// that carries only G's older signing subkey - what a per-repository
+		// export or a file from before a subkey rotation looks like. Derived
+		// from pgp_g.gpg without unlocking anything.
+		raw, err := os.ReadFile(filepath.Join(dir, "pgp_g.gpg"))
+		must(err)
+		el, err := openpgp.ReadKeyRing(bytes.NewReader(raw))
+		must(err)
+		h := el[0]
+		old, err := os.ReadFile(filepath.Join(dir, "pgp_g.oldsubkeyid"))
+		must(err)
+		var keep []openpgp.Subkey
+		for _, sk := range h.Subkeys {
+			if fmt.Sprintf("%016x", sk.PublicKey.KeyId) == strings.TrimSpace(string(old)) {
+				keep = append(keep, sk)
+			}
+		}
+		if len(keep) != 1 {
+			panic("old subkey of G not found")
+		}
+		h.Subkeys = keep
+		write("pgp_h.pub.asc", serializePub(h, true))
+		write("pgp_h.pub.gpg", serializePub(h, false))
+		write("pgp_h.keyid", []byte(fmt.Sprintf("%016x", h.PrimaryKey.KeyId)))
+		write("pgp_h.subkeyid", []byte(fmt.Sprintf("%016x", keep[0].PublicKey.KeyId)))
+		write("pgp_h.asc", serializePriv(h, true))
+		write("pgp_h.gpg", serializePriv(h, false))
+		fmt.Println("key H written to", dir)
 		return
 	}
 	if len(os.Args) > 2 && os.Args[2] == "only-e" {
